@@ -283,6 +283,8 @@ Replace(t, k, x) == RowsOk(t, 1) /\ Dml(t, ReplaceOp(ForUpdate(t), <<<<k, x>>>>)
 Replace3(t, k, x) == RowsOk(t, 3) /\ Dml(t, ReplaceOp(ForUpdate(t), <<<<k + 2, x>>, <<k, x + 1>>, <<k + 1, x>>>>), FALSE)
 InsertSel(t, u)  == RowsOk(t, Len(Seen(u).rows)) /\ DmlR(t, InsertSelOp(ForUpdate(t), IF u = t THEN ForUpdate(t) ELSE Seen(u)), FALSE, {u} \ {t, TempT}, {})
 InsertCols(t, k) == RowsOk(t, 1) /\ Dml(t, InsertColsOp(ForUpdate(t), k), FALSE)
+\* INSERT INTO t (id, id) VALUES (k, k + 1) : a column cannot receive two values; nothing is inserted
+InsertDup(t, k)  == Dml(t, IF Has(ForUpdate(t), "id") THEN F("DuplicateFieldName") ELSE F("FieldNotExist"), FALSE)
 \* INSERT INTO t VALUES (k, 1), (k + 1) : the second row is too short; nothing is inserted
 InsertBad2(t, k) == Dml(t, InsertOp(ForUpdate(t), <<<<k, 1>>, <<k + 1>>>>), FALSE)
 UpdateJoin(t, u) == u # t /\ DmlR(t, UpdateJoinOp(ForUpdate(t), IF u = TempT THEN temp.cur ELSE ForUpdate(u)), FALSE, {}, {u} \ {TempT})
@@ -444,6 +446,7 @@ Do(a) ==
        [] a.act = "insertsel" -> InsertSel(a.t, a.u)
        [] a.act = "insertcols" -> InsertCols(a.t, a.k)
        [] a.act = "insertbad2" -> InsertBad2(a.t, a.k)
+       [] a.act = "insertdup" -> InsertDup(a.t, a.k)
        [] a.act = "updatejoin" -> UpdateJoin(a.t, a.u)
        [] a.act = "deletejoin" -> DeleteJoin(a.t, a.u)
        [] a.act = "updatetwo" -> UpdateTwo(a.t, a.u, a.k)
@@ -476,7 +479,7 @@ Actions ==
   \cup {A("updatefail", t, k, 0) : t \in Tables, k \in Keys}
   \cup {A(r, t, k, x) : r \in {"replace", "replace3"}, t \in Tables, k \in Keys, x \in Vals}
   \cup {A(x, t, 0, 0) : x \in {"selectsub", "selectagg", "addfirst"}, t \in Tables}
-  \cup {A(x, t, k, 0) : x \in {"insertcols", "insertbad2", "addfail"}, t \in Tables, k \in Keys}
+  \cup {A(x, t, k, 0) : x \in {"insertcols", "insertbad2", "insertdup", "addfail"}, t \in Tables, k \in Keys}
   \cup {A2(x, t, u) : x \in {"insertsel", "updatejoin", "deletejoin"}, t \in Tables, u \in Tables \ {NewFile}}
   \cup {A("updateswap", t, k, 0) : t \in Tables, k \in Keys \cup {0}}
   \cup {A("inserth", t, k, 0) : t \in Tables, k \in Keys}
